@@ -5,6 +5,7 @@ use crate::common::*;
 use crate::hc::*;
 use serde_json::json;
 use uflow::SendMode;
+use uflow::verif::Serialize;
 
 #[derive(Clone, Copy, PartialEq)]
 pub enum Profile {
@@ -103,7 +104,14 @@ pub fn run_random(tr: &mut Trace, run: u64, seed: u64, prof: Profile) -> RunStat
         Profile::Rate => &[1472, 1600, 2500, 3000, 3600, 20500, 100000, 1000000, 2000000],
         _ => &[20000, 100000, 1000000, 2000000, 10000000],
     };
-    let bw = [*r.pick(bw_choices), *r.pick(bw_choices)];
+    let mut bw = [*r.pick(bw_choices), *r.pick(bw_choices)];
+    // phased runs: see below (decided here because the phased rate runs prefer ceilings the controller actually reaches
+    // within a run - the ceiling, not the controller's current rate, is what C13 bounds)
+    let mut ph_rng = Rng::new(seed ^ 0x50A5_ED01);
+    let phased = matches!(prof, Profile::Rate | Profile::Blackout | Profile::Mixed) && ph_rng.chance(if prof == Profile::Rate { 3 } else { 2 }, 6);
+    if phased && prof == Profile::Rate {
+        bw = [*ph_rng.pick(&[2500u32, 3600, 6000, 10000, 20500, 50000]), *ph_rng.pick(&[2500u32, 3600, 6000, 10000, 20500, 50000])];
+    }
     let keepalive = if r.chance(1, 2) { Some(*r.pick(&[500u64, 5000])) } else { None };
     let cfg = PairCfg { pw, fw, pbase, fbase, rx_alloc, bw, keepalive };
     let mut p = Pair::new(cfg);
@@ -131,6 +139,19 @@ pub fn run_random(tr: &mut Trace, run: u64, seed: u64, prof: Profile) -> RunStat
         Profile::Blackout => r.range(50, 400),
         _ => r.range(20, 300),
     };
+    // phased runs (a third of the rate / blackout / mixed runs; a generator of their own): the round-trip time changes by
+    // an order of magnitude or more a third of the way through, and the traffic goes heavy - light - heavy, so that estimates,
+    // caps and credit built up under one regime meet the backlog of the next ("lasting change of the round-trip time")
+    let (lat_first, lat_second) = if !phased { (latency, latency) } else if ph_rng.chance(2, 3) {
+        (*ph_rng.pick(&[150u64, 400, 400, 1000]), *ph_rng.pick(&[0u64, 1, 3, 10]))
+    } else {
+        (*ph_rng.pick(&[0u64, 1, 10]), *ph_rng.pick(&[150u64, 400, 1000]))
+    };
+    let latency = if phased { lat_first.max(lat_second) } else { latency }; // what the quiescence rule waits for
+    // in two thirds of the phased runs the first phase is moderate as well (no backlog is carried into the light phase, so
+    // the credit can fill up under the first regime before the second one shrinks its cap)
+    let moderate_first = phased && ph_rng.chance(2, 3);
+    let lat = std::cell::Cell::new(lat_first);
     let send_burst = *r.pick(&[1u64, 2, 5, 20]);
     let send_prob = *r.pick(&[5u64, 20, 50, 90]);
     let both_dirs = r.chance(1, 2) || ideal;
@@ -141,12 +162,19 @@ pub fn run_random(tr: &mut Trace, run: u64, seed: u64, prof: Profile) -> RunStat
     tr.line(json!({"ev": "Reset", "run": run, "seed": seed as i64 & 0x3FFFFFFF, "driver": "hc-random", "profile": match prof {
         Profile::Mixed => "mixed", Profile::Ideal => "ideal", Profile::Blackout => "blackout", Profile::Rate => "rate", Profile::Frag => "frag" },
         "ideal": ideal, "honest": p.tamper == 0, "cfg": p.cfg_json(), "nch": nch, "latency": latency, "cadence": cadence,
-        "ceil_a": p.cfg.bw[0], "ceil_b": p.cfg.bw[1]}));
+        "ceil_a": p.cfg.bw[0], "ceil_b": p.cfg.bw[1], "phased": phased, "lat_first": lat_first, "lat_second": lat_second, "moderate_first": moderate_first}));
 
     let mut st = RunStats { sent: 0, delivered: 0, frames: 0, dropped: 0, dupd: 0, corrupted: 0, quiesced: false, dead: false };
 
     // blackout windows [t0, t1) per direction
     let mut blackouts: Vec<(u64, u64, usize)> = Vec::new();
+    if prof == Profile::Rate && phased && ph_rng.chance(1, 2) {
+        // feedback blackouts: the acknowledgements (or everything) stop for a while although the sender has a backlog
+        for _ in 0..ph_rng.range(1, 3) {
+            let t0 = ph_rng.below(rounds * cadence);
+            blackouts.push((t0, t0 + *ph_rng.pick(&[300u64, 1000, 2500, 6000]), *ph_rng.pick(&[1usize, 1, 0, 2])));
+        }
+    }
     if prof == Profile::Blackout {
         let n = r.range(1, 3);
         for _ in 0..n {
@@ -160,6 +188,12 @@ pub fn run_random(tr: &mut Trace, run: u64, seed: u64, prof: Profile) -> RunStat
     let maxp = |e: usize, p: &Pair| -> usize { p.cfg.rx_alloc[1 - e].min(200000) };
 
     let mut last_due = [0u64; 2]; // FIFO in ideal mode
+    // late copies ("delay" in the quantifiers of C01 / C02): in a third of the faulty runs a frame may get one more copy
+    // that arrives seconds later - after newer frames of every kind - and sync frames, whose stale ids must do no harm,
+    // get one most of the time.  Drawn from a generator of its own, so that the other choices of a run do not depend on it.
+    let mut late_rng = Rng::new(seed ^ 0x1A7E_C0B1);
+    let late_mode = matches!(prof, Profile::Mixed | Profile::Blackout | Profile::Frag) && late_rng.chance(1, 3);
+    let late_pct = *late_rng.pick(&[2u64, 5, 10]);
     let mut visit = |p: &mut Pair, tr: &mut Trace, r: &mut Rng, e: usize, faults: bool, st: &mut RunStats, receive: bool| {
         // Client/Server order: flush, handle frames, step, receive
         let frames = p.flush(tr, e, None);
@@ -195,7 +229,7 @@ pub fn run_random(tr: &mut Trace, run: u64, seed: u64, prof: Profile) -> RunStat
                     fate = "flip";
                     st.corrupted += 1;
                 }
-                let mut due = now + latency + if faults && jitter > 0 { r.below(jitter + 1) } else { 0 };
+                let mut due = now + lat.get() + if faults && jitter > 0 { r.below(jitter + 1) } else { 0 };
                 if !faults || ideal {
                     // fair / ideal network: FIFO per direction
                     due = due.max(last_due[dir]);
@@ -203,6 +237,15 @@ pub fn run_random(tr: &mut Trace, run: u64, seed: u64, prof: Profile) -> RunStat
                 }
                 tr.line(json!({"ev": "Net", "dir": dir, "idx": idx, "fate": fate, "due": due}));
                 p.launch(dir, idx, b, due);
+            }
+            if faults && late_mode {
+                let is_sync = matches!(uflow::verif::Frame::read(&bytes), Some(uflow::verif::Frame::SyncFrame(_)));
+                if late_rng.chance(if is_sync { 60 } else { late_pct }, 100) {
+                    let due = now + lat.get() + *late_rng.pick(&[600u64, 2500, 2500, 7000, 30000]);
+                    st.dupd += 1;
+                    tr.line(json!({"ev": "Net", "dir": dir, "idx": idx, "fate": "late", "due": due}));
+                    p.launch(dir, idx, bytes.clone(), due);
+                }
             }
         }
         p.deliver_due(tr, e);
@@ -223,13 +266,26 @@ pub fn run_random(tr: &mut Trace, run: u64, seed: u64, prof: Profile) -> RunStat
             2 => r.below(3),
             _ => cadence,
         };
+        // (the light phase of a phased run lasts several of the earlier round trips, whatever the cadence)
+        let dt = if phased && ((round >= rounds / 3 && round < 2 * rounds / 3) || (moderate_first && round < rounds / 3)) { dt.max(lat_first.max(lat_second) / 8) } else { dt };
         advance_ms(dt);
         let order = if r.chance(1, 2) { [0usize, 1] } else { [1, 0] };
         for &e in order.iter() {
             if p.dead {
                 break;
             }
-            if (e == 0 || both_dirs) && r.chance(send_prob, 100) {
+            let light = phased && ((round >= rounds / 3 && round < 2 * rounds / 3) || (moderate_first && round < rounds / 3));
+            if phased && round == rounds / 3 {
+                lat.set(lat_second);
+            }
+            if (e == 0 || both_dirs) && light {
+                // light phase: now and then one small packet, never a backlog
+                if ph_rng.chance(1, 4) {
+                    let len = ph_rng.range(4, 200) as usize;
+                    p.send(tr, e, ph_rng.below(nch) as u8, *ph_rng.pick(&[SendMode::Unreliable, SendMode::Reliable]), len.min(maxp(e, &p)));
+                    st.sent += 1;
+                }
+            } else if (e == 0 || both_dirs) && r.chance(if phased { 90 } else { send_prob }, 100) {
                 let n = r.range(1, send_burst);
                 for _ in 0..n {
                     let len = pick_len(&mut r, maxp(e, &p), prof);
